@@ -67,6 +67,9 @@ func cfgSize(c obs.Cfg) int {
 	if c.Rv {
 		n += 2
 	}
+	if c.Ring {
+		n += 4
+	}
 	if c.Form == "s" {
 		n++
 	}
